@@ -193,3 +193,39 @@ pub struct Burst {
 pub fn burst_strategy(_t: Tier) -> impl Strategy<Value = Burst> {
     (2u8..=4, 1u8..=2).prop_map(|(max_cp, extra)| Burst { max_cp, extra })
 }
+
+
+/// Part `auto`: destructive statements with auto-checkpoints on.
+#[derive(Clone, Debug, Serialize, Deserialize)]
+pub enum AutoOp {
+    /// DELETE FROM t WHERE id = k
+    DeleteRow(u8),
+    /// NODE DELETE of the k-th created node
+    DeleteNode(u8),
+    /// EMBED DELETE 'ek'
+    DeleteEmb(u8),
+    /// CREATE TABLE d<k> ...; DROP TABLE d<k>
+    DropTable(u8),
+    /// CHECKPOINT 'm<i>'
+    Manual,
+    /// INSERT (not destructive)
+    Insert(u8),
+}
+
+#[derive(Clone, Debug, Serialize, Deserialize)]
+pub struct AutoCase {
+    pub max_cp: u8,
+    pub ops: Vec<AutoOp>,
+}
+
+pub fn auto_strategy(_t: Tier) -> impl Strategy<Value = AutoCase> {
+    let op = prop_oneof![
+        4 => (0u8..8).prop_map(AutoOp::DeleteRow),
+        3 => (0u8..6).prop_map(AutoOp::DeleteNode),
+        3 => (0u8..6).prop_map(AutoOp::DeleteEmb),
+        2 => (0u8..3).prop_map(AutoOp::DropTable),
+        2 => Just(AutoOp::Manual),
+        2 => (0u8..8).prop_map(AutoOp::Insert),
+    ];
+    (2u8..=3, prop::collection::vec(op, 3..12)).prop_map(|(max_cp, ops)| AutoCase { max_cp, ops })
+}
